@@ -194,6 +194,10 @@ def histories(pid, tier, seed):
         lines, meta = GEN[pid](rng, b["ops"] if i % 4 else b["ops"] * 3)
         meta["seed"] = hseed
         yield ("gen-%s-%d" % (pid, i), lines, meta)
+    if pid == "C18":
+        yield from collision_histories("kcache", seed)
+    if pid == "C17":
+        yield from collision_histories("ntable", seed)
     if pid == "C20":
         lines = ["eda"]
         for n in range(1, 5 if tier == "quick" else 6):
@@ -218,6 +222,34 @@ def histories(pid, tier, seed):
                 lines += ["rem %d" % k, "get %d" % k, "get %d" % (k + 1)]
             lines += ["ins 1 5", "ins 1 6", "iter", "clear", "get 1", "iter"]
             yield ("fill-%d" % hk, lines, {"cfg": "raw %d" % hk, "kind": "fill-levels", "classes": {}})
+
+
+# ------------------------------------------------------------------------------------------------ crafted hash collisions
+def collision_histories(kind, seed, n=6):
+    """histories built around crafted 64-bit collisions of the crate's pairing3 hash (lib/collide.py):
+    kind 'kcache': Cache<OpKey, Ref> keys Ite(a1,b1,c1) / Ite(a2,b2,c2) with the same full hash;
+    kind 'ntable': Table<Node> values with the same full hash."""
+    import collide
+    rng = random.Random(seed * 31 + 17)
+    out = []
+    for i in range(n):
+        pairs = collide.collisions(rng, 6)
+        if kind == "kcache":
+            lines = ["kcache %d" % rng.choice([0, 1, 3, 6])]
+            for (t1, t2) in pairs:
+                lines += ["ins I %d %d %d %d" % (t1 + (rng.randrange(2, 99),)), "get I %d %d %d" % t2, "get I %d %d %d" % t1,
+                          "ins I %d %d %d %d" % (t2 + (rng.randrange(2, 99),)), "get I %d %d %d" % t1, "get I %d %d %d" % t2]
+                if rng.random() < 0.3:
+                    lines.append("clear")
+            lines.append("dump")
+        else:
+            lines = ["ntable %d %d" % (rng.choice([5, 6, 8]), rng.choice([0, 2, 4]))]
+            for (t1, t2) in pairs:
+                # node fields: variable = c, low = a, high = b
+                lines += ["putn %d %d %d" % (t1[2], t1[0], t1[1]), "putn %d %d %d" % (t2[2], t2[0], t2[1]), "putn %d %d %d" % (t1[2], t1[0], t1[1])]
+                lines.append("putn %d %d %d" % (rng.randrange(1, 9), rng.randrange(2, 40), rng.randrange(2, 40)))
+        out.append(("collide-%s-%d" % (kind, i), lines, {"cfg": lines[0], "kind": "crafted-hash-collisions", "classes": {"crafted-collision-pairs": len(pairs)}}))
+    return out
 
 
 def corpus(pid):
@@ -371,7 +403,7 @@ def run_property(pid, tier, seed, spec):
 
 def replay(pid, path):
     lines = [l.rstrip("\n") for l in open(path) if l.strip()]
-    if lines and lines[0].split()[0] not in ("table", "cache", "kcache", "raw", "eda"):
+    if lines and lines[0].split()[0] not in ("table", "ntable", "cache", "kcache", "raw", "eda"):
         print("replay file is a report, not a history:")
         print("\n".join(lines))
         return 1
